@@ -293,6 +293,11 @@ def build(recipe: dict):
     pad = 2 if (fam == "billing" and recipe["entry"] == "series") else 0
     hidx = _hourly_index(tz, first, n + pad)
     temp_h = _temperature(hidx, tz, p)
+    if recipe.get("wx") and role == "reporting":
+        # another weather scenario for the same period (a typical year instead of the actual one): same timestamps, same
+        # number of rows, other temperatures
+        hrs = np.arange(len(temp_h), dtype="float64")
+        temp_h = temp_h + 6.0 * np.sin(2 * np.pi * hrs / (24.0 * 9.0)) + 2.5
 
     if fam in ("daily", "billing"):
         days = _local_days(tz, first, n)
